@@ -206,6 +206,25 @@ pub fn check_exec_named(source: &str, tgt: Tgt, arg_seed: u64, vectors: usize, e
         Ok(Err(d)) => return Verdict::Skip(format!("front end rejects: {}", norm(d.lines().next().unwrap_or("")))),
         Ok(Ok(m)) => m,
     };
+    // the emitted leaf name of a global: looked up by its qualified source name first (globals of different
+    // namespaces may share their plain name)
+    let global_out_name = |g: usize| -> String {
+        let def = &module.global_registry[g];
+        let mut q = def.name.node.clone();
+        let mut ns = def.namespace;
+        let mut qualified = false;
+        while let Some(n) = ns {
+            q = format!("{}::{}", module.namespace_registry.get_namespace_name(n), q);
+            ns = module.namespace_registry.get_namespace_parent(n);
+            qualified = true;
+        }
+        if qualified {
+            if let Some(n) = emitted.get(&format!("@{}", q)) {
+                return n.clone();
+            }
+        }
+        out_name(&def.name.node)
+    };
     let text = match compile_text(source, tgt) {
         Err(p) => return Verdict::Fail { signature: format!("panic:{}", p), detail: "compile panicked".into() },
         Ok(Err(d)) => return Verdict::Skip(format!("backend rejects: {}", norm(d.lines().next().unwrap_or("")))),
@@ -386,7 +405,7 @@ pub fn check_exec_named(source: &str, tgt: Tgt, arg_seed: u64, vectors: usize, e
                 if p.mode != ctext::Mode::Ref {
                     return Verdict::Fail { signature: "implicit-parameter-by-value".into(), detail: format!("extra parameter {} of {} is not a reference\n{}", p.name, tf.name, text) };
                 }
-                let gid = (0..module.global_registry.len()).find(|g| out_name(&module.global_registry[*g].name.node) == p.name);
+                let gid = (0..module.global_registry.len()).find(|g| global_out_name(*g) == p.name);
                 let Some(gid) = gid else {
                     return Verdict::Fail { signature: "implicit-parameter-unknown".into(), detail: format!("extra parameter {} of {} names no global\n{}", p.name, tf.name, text) };
                 };
@@ -461,7 +480,14 @@ pub fn check_exec_named(source: &str, tgt: Tgt, arg_seed: u64, vectors: usize, e
                 if implicit.iter().any(|(_, id)| *id == g as u32) {
                     continue;
                 }
-                if let Some(b) = sem.global_value(&out_name(&def.name.node)) {
+                // a global of a namespace is declared inside the (possibly renamed) namespace in the text
+                let mut text_name = global_out_name(g);
+                let mut ns = def.namespace;
+                while let Some(n) = ns {
+                    text_name = format!("{}::{}", out_name(module.namespace_registry.get_namespace_name(n)), text_name);
+                    ns = module.namespace_registry.get_namespace_parent(n);
+                }
+                if let Some(b) = sem.global_value(&text_name) {
                     if !same(a, &b) {
                         return mismatch(&format!("global {}", def.name.node), a, &b);
                     }
